@@ -1,6 +1,7 @@
 package main
 
 import (
+	"context"
 	"encoding/binary"
 	"errors"
 	"fmt"
@@ -46,6 +47,42 @@ type simConn struct {
 	chopAt      int
 	eofWithData bool // deliver the final bytes together with io.EOF when the peer closes at once
 	sawEOF      bool
+	// local frame writes (virtual times, ascending): while a Read is parked and the clock passes
+	// one, onWrite performs the write-deadline bracket of the REAL transport on this conn
+	writes  []time.Time
+	onWrite func(c *simConn)
+	fired   int
+}
+
+// settle fires the local writes that fall inside the wait of a parked Read (strictly before
+// the instant the Read would wake: next arrival / close, or the read deadline).
+func (c *simConn) settle() {
+	for {
+		for len(c.writes) > 0 && !c.writes[0].After(c.now) {
+			c.writes = c.writes[1:] // between two Reads: the next Read re-arms its deadline anyway
+		}
+		if len(c.writes) == 0 || c.onWrite == nil {
+			return
+		}
+		var wake time.Time // zero = never
+		switch {
+		case len(c.segs) > 0:
+			wake = c.lastArrival.Add(c.segs[0].gap)
+		case c.eof:
+			wake = c.lastArrival.Add(c.eofGap)
+		}
+		if !c.deadline.IsZero() && (wake.IsZero() || c.deadline.Before(wake)) {
+			wake = c.deadline
+		}
+		w := c.writes[0]
+		if !wake.IsZero() && !w.Before(wake) {
+			return
+		}
+		c.advance(w)
+		c.writes = c.writes[1:]
+		c.fired++
+		c.onWrite(c)
+	}
 }
 
 func (c *simConn) clock() time.Time { return c.now }
@@ -74,6 +111,7 @@ func (c *simConn) Read(p []byte) (int, error) {
 		return 0, io.EOF
 	}
 	for len(c.pending) == 0 {
+		c.settle()
 		if len(c.segs) == 0 {
 			if !c.eof {
 				if !c.deadline.IsZero() {
@@ -117,12 +155,12 @@ func (c *simConn) Read(p []byte) (int, error) {
 	return n, nil
 }
 
-func (c *simConn) Write(p []byte) (int, error)       { return len(p), nil }
-func (c *simConn) Close() error                      { return nil }
-func (c *simConn) LocalAddr() net.Addr               { return nil }
-func (c *simConn) RemoteAddr() net.Addr              { return nil }
-func (c *simConn) SetDeadline(t time.Time) error     { return c.SetReadDeadline(t) }
-func (c *simConn) SetWriteDeadline(time.Time) error  { return nil }
+func (c *simConn) Write(p []byte) (int, error)      { return len(p), nil }
+func (c *simConn) Close() error                     { return nil }
+func (c *simConn) LocalAddr() net.Addr              { return nil }
+func (c *simConn) RemoteAddr() net.Addr             { return nil }
+func (c *simConn) SetDeadline(t time.Time) error    { return c.SetReadDeadline(t) }
+func (c *simConn) SetWriteDeadline(time.Time) error { return nil }
 
 // ---------------------------------------------------------------------------------------------
 // scripts
@@ -130,12 +168,13 @@ func (c *simConn) SetWriteDeadline(time.Time) error  { return nil }
 const unit = time.Millisecond
 
 type script struct {
-	t8     int // in units
-	segs   []seg
-	eof    bool
-	eofGap int
+	t8          int // in units
+	segs        []seg
+	eof         bool
+	eofGap      int
 	chop        []int
 	eofWithData bool
+	writes      []time.Duration // local frame writes, offsets from the start of the script
 	// what the generator knows independently of the library:
 	wantFrames [][]byte // frames that must be delivered
 	wantEnd    string   // I | E | T | L
@@ -255,6 +294,22 @@ func genScript(c *vh.Ctx) script {
 		}
 	}
 	s.eofWithData = r.Intn(3) == 0
+	if r.Intn(2) == 0 { // local frame writes while the reader waits (must not disturb T8)
+		var at time.Duration
+		for _, g := range s.segs {
+			if g.gap > 0 && r.Intn(2) == 0 {
+				k := r.Int63n(int64(g.gap / unit))
+				if k > int64(4*s.t8) {
+					k = r.Int63n(int64(4*s.t8) + 1)
+				}
+				s.writes = append(s.writes, at+time.Duration(k)*unit+unit/2)
+			}
+			at += g.gap
+		}
+		if r.Intn(2) == 0 { // and after the last segment
+			s.writes = append(s.writes, at+time.Duration(r.Intn(2*s.t8+1))*unit+unit/2)
+		}
+	}
 	s.wantFrames, s.wantEnd = expect(s, cap)
 	return s
 }
@@ -326,6 +381,10 @@ func runScript(c *vh.Ctx, s script) {
 	t0 := time.Unix(1_700_000_000, 0)
 	conn := &simConn{t0: t0, now: t0, lastArrival: t0, segs: append([]seg(nil), s.segs...), eof: s.eof, eofGap: time.Duration(s.eofGap) * unit,
 		chop: s.chop, eofWithData: s.eofWithData}
+	for _, w := range s.writes {
+		conn.writes = append(conn.writes, t0.Add(w))
+	}
+	conn.onWrite = func(sc *simConn) { _ = hsmsss.VerifTransportWriteBracket(sc, sc.now.Add(30*time.Second)) }
 	var ev []string
 	badAlloc := 0
 	alloc := func(n int) []byte {
@@ -369,8 +428,15 @@ func runScript(c *vh.Ctx, s script) {
 	line := s.lhs() + " | " + strings.Join(ev, " ")
 	c.Case(line, line, len(s.segs) > 0)
 	c.Count(fmt.Sprintf("S/frames=%d/end=%s", len(got), end))
+	if conn.fired > 0 {
+		c.Count("S/local-writes-during-a-parked-read")
+	}
 
 	// ---- implementation-level oracle (the generator's own knowledge, no model) ----
+	// failing cases carry the conn behaviours the model is indifferent to, so a replay is complete
+	if len(s.writes) > 0 || len(s.chop) > 0 || s.eofWithData {
+		line += fmt.Sprintf("   [local frame writes (write-deadline bracket through the real transport) at %v after script start; read-size caps %v; final bytes with EOF %v]", s.writes, s.chop, s.eofWithData)
+	}
 	if badAlloc != 0 {
 		c.Fail(fmt.Sprintf("readFrame asked the allocator for %d bytes (outside [10, cap])", badAlloc), line)
 	}
@@ -402,6 +468,13 @@ func readerPass(c *vh.Ctx) {
 			}
 			runScript(c, s)
 		}
+	}
+	// an in-frame stall with local frame writes inside the gap: T8 still counts from the last byte
+	for cut := 1; cut < len(frame); cut++ {
+		runScript(c, script{t8: 5, segs: []seg{{gap: 3 * unit, data: frame[:cut]}, {gap: 9 * unit, data: frame[cut:]}}, eof: false,
+			writes: []time.Duration{3*unit + unit/2, 5*unit + unit/2, 7*unit + unit/2}, wantEnd: "T"})
+		runScript(c, script{t8: 5, segs: []seg{{gap: 3 * unit, data: frame[:cut]}}, eof: false,
+			writes: []time.Duration{4*unit + unit/2}, wantEnd: "T"})
 	}
 	// two frames in one segment, then idle for a very long time, then a third
 	two := append(append([]byte(nil), frame...), frame...)
@@ -445,6 +518,10 @@ func e2ePass(c *vh.Ctx) {
 		nLinks = 4
 	}
 	for li := 0; li < nLinks; li++ {
+		if li%6 >= 4 {
+			e2eStall(c, li, t8, li%6 == 4)
+			continue
+		}
 		l, err := fr.OpenLink(uint16(li+1), nil, hsms.WithT8(t8))
 		if err != nil {
 			c.Fail("e2e: cannot open a link over net.Pipe: "+err.Error(), fmt.Sprint(li))
@@ -461,7 +538,7 @@ func e2ePass(c *vh.Ctx) {
 		peer := l.Peer()
 		// the stream: data frames (valid and undecodable bodies), a linktest and an undefined
 		// SType in between (answered, not delivered), then the scenario's ending
-		scenario := li % 4 // 0 clean, 1 in-frame stall > T8, 2 bad length, 3 long idle gaps only
+		scenario := li % 6 // 4, 5: e2eStall; 0 clean, 1 in-frame stall > T8, 2 bad length, 3 long idle gaps only
 		nf := 3 + r.Intn(6)
 		var stream []byte
 		var want []string
@@ -585,5 +662,95 @@ func e2ePass(c *vh.Ctx) {
 			}
 		}
 		_ = l.Conn.Close()
+	}
+}
+
+// e2eStall: the peer sends one whole frame, then part of a frame, then stalls. The link must be
+// dropped T8 after the last received byte: not earlier (exact: a timer cannot fire early) and not
+// much later (T8 + slack). With localWrites the local side WRITES frames during the gap (an async
+// data send and a synchronous forward) - writing must not move the receive side's deadline; without,
+// it is the control.
+func e2eStall(c *vh.Ctx, li int, t8 time.Duration, localWrites bool) {
+	r := c.Rng
+	const slack = 2 * time.Second
+	l, err := fr.OpenLink(uint16(li+1), nil, hsms.WithT8(t8))
+	if err != nil {
+		c.Fail("e2e: cannot open a link over net.Pipe: "+err.Error(), fmt.Sprint(li))
+		return
+	}
+	defer l.Conn.Close()
+	var mu sync.Mutex
+	delivered := 0
+	l.Conn.AddDataMessageHandler(func(m *hsms.DataMessage, _ hsms.SECS2Endpoint) {
+		mu.Lock()
+		delivered++
+		mu.Unlock()
+	})
+	peer := l.Peer()
+	mk := func() []byte {
+		var sb [4]byte
+		binary.BigEndian.PutUint32(sb[:], r.Uint32())
+		m, _ := hsms.NewDataMessage(byte(r.Intn(128)), byte(r.Intn(128))*2+1, false, uint16(li+1), sb, fr.RandItem(r, 2))
+		return m.ToBytes()
+	}
+	whole, part := mk(), mk()
+	cut := 1 + r.Intn(len(part)-1)
+	if r.Intn(3) == 0 {
+		cut = 1 + r.Intn(4) // inside the length prefix
+	}
+	outItem := fr.RandItem(r, 1)
+	fwd, _ := hsms.NewDataMessage(5, 7, false, uint16(li+1), [4]byte{0, 0, 9, byte(li)}, fr.RandItem(r, 1))
+	desc := fmt.Sprintf("e2e-stall link=%d local-writes=%v cut=%d/%d T8=%s", li, localWrites, cut, len(part), t8)
+	c.Case("# "+desc, desc, true)
+	c.Count(fmt.Sprintf("E/stall/local-writes=%v", localWrites))
+	if err := peer.Write(whole); err != nil {
+		c.Fail("e2e: peer cannot write on an open link", desc)
+		return
+	}
+	a0 := time.Now()
+	if err := peer.Write(part[:cut]); err != nil {
+		c.Fail("e2e: peer cannot write on an open link", desc)
+		return
+	}
+	a1 := time.Now()
+	if localWrites {
+		go func() {
+			time.Sleep(t8 * 3 / 10)
+			_ = l.Conn.SendDataMessageAsync(context.Background(), 1, 1, false, outItem)
+			time.Sleep(t8 * 3 / 10)
+			ctx, cancel := context.WithTimeout(context.Background(), time.Second)
+			_ = l.Conn.ForwardDataMessage(ctx, fwd)
+			cancel()
+		}()
+	}
+	select {
+	case <-peer.Done:
+		d := time.Now()
+		if d.Sub(a0) < t8 {
+			c.Fail(fmt.Sprintf("e2e: link dropped %s after the peer began writing the partial frame: earlier than T8", d.Sub(a0)), desc)
+		}
+		if d.Sub(a1) > t8+slack {
+			c.Fail(fmt.Sprintf("e2e: link dropped only %s after the last received byte (T8 + %s allowed)", d.Sub(a1), slack), desc)
+		}
+	case <-time.After(t8 + slack):
+		c.Fail("e2e: link not dropped T8 after the last received byte of a partial frame (receiver parked mid-frame)", desc)
+	}
+	mu.Lock()
+	n := delivered
+	mu.Unlock()
+	if n != 1 {
+		c.Fail(fmt.Sprintf("e2e: %d messages delivered, exactly the one complete frame expected", n), desc)
+	}
+	if localWrites {
+		// the local writes themselves must have reached the peer (they happened inside the gap)
+		cnt := 0
+		for _, f := range peer.Snapshot() {
+			if len(f) >= 14 && f[9] == 0 {
+				cnt++
+			}
+		}
+		if cnt != 2 {
+			c.Fail(fmt.Sprintf("e2e: %d of the 2 local frames written during the gap reached the peer", cnt), desc)
+		}
 	}
 }
